@@ -254,7 +254,8 @@ let mk_cfg arms (ztab : (n list * n list * n) list) cache : dcfg =
   { d_arms = arms; d_cache = cache;
     d_inflate = (fun rest -> match List.find_opt (fun (c, _, _) -> is_prefix c rest) ztab with
                            | Some (_, plain, consumed) -> Some (plain, consumed) | None -> None);
-    d_float_text = rust_float_text; d_kcmp = cmp_owned; d_kinsert = map_insert }
+    d_float_text = rust_float_text; d_kcmp = cmp_owned; d_kinsert = map_insert;
+    d_extra_fuel = nat_of_int (List.fold_left (fun acc (_, p, _) -> acc + List.length p + 2) 0 ztab) }
 
 let rec parse_ztab (ws : string list) = match ws with
   | "Z" :: c :: p :: k :: r -> (bytes_of_hex c, bytes_of_hex p, n_of_dec k) :: parse_ztab r
@@ -300,12 +301,13 @@ let codec_case (line : string) : string =
                    let o = dres_str (decode (mk_cfg owned_arms (parse_ztab tl) []) data) in
                    Printf.sprintf "b=%s ; o=%s" b o
                | [] -> failwith "decb")
+  | "dec2" | "decb2" | "dect2" | "deca2" | "decf2" | "inflate" | "convh" -> "-"
   | "dect" -> (match words rest with
                | h :: tl ->
                    (match bytes_of_hex h with
                     | [] -> "err eof"
                     | v :: r -> if int_of_n v <> 131 then "err tag" else
-                        (match parse (mk_cfg owned_arms (parse_ztab tl) []) (nat_of_int (List.length r + 2)) r with
+                        (let cfg = mk_cfg owned_arms (parse_ztab tl) [] in match parse cfg (nat_of_int (List.length r + 2 + List.fold_left (fun acc (_, p, _) -> acc + List.length p + 2) 0 (parse_ztab tl))) r with
                          | POk (t, rest) -> Printf.sprintf "ok %s rest=%s" (term_str t) (hex_of_bytes rest)
                          | PErr k -> "err " ^ dkind_str k))
                | [] -> "err eof")
